@@ -297,7 +297,7 @@ pub fn run(max_windows: u64) -> WorldOutcome {
         let ps = kernel::take_panics();
         let t = ps.iter().filter(|p| p.message.contains("consensus safety violation")).map(|p| p.virt_ms).min();
         for p in ps.iter().filter(|p| !p.message.contains("consensus safety violation")) {
-            if kernel::location_in_repo(&p.location) {
+            if kernel::panic_in_repo(&p) {
                 kernel::violation("C10", format!("panic:{}", p.location.rsplit('/').next().unwrap_or("")), format!("panic in the solo node: {} @ {}", p.message, p.location));
             }
         }
